@@ -63,16 +63,28 @@ class Env:
         from evo import main_ape, main_ape_parser
         self.quiet(lambda: main_ape.run(main_ape_parser.parser().parse_args(["tum", "a.txt", "b.txt", "--save_results", "r1.zip"])))
         self.quiet(lambda: main_ape.run(main_ape_parser.parser().parse_args(["tum", "a.txt", "c.txt", "--save_results", "r2.zip"])))
-        self.inputs = {p: Path(p).read_bytes() for p in ("a.txt", "b.txt", "c.txt", "r1.zip", "r2.zip")}
+        # a result with a *different title* (rotation angle instead of translation part): evo_res then asks "Go on anyway?"
+        self.quiet(lambda: main_ape.run(main_ape_parser.parser().parse_args(
+            ["tum", "a.txt", "c.txt", "-r", "angle_deg", "--save_results", "r3.zip"])))
+        self.inputs = {p: Path(p).read_bytes() for p in ("a.txt", "b.txt", "c.txt", "r1.zip", "r2.zip", "r3.zip")}
 
-    def quiet(self, fn, answers=()):
-        """run fn with stdout/stderr captured and input() scripted; returns (prompts, exception)"""
+    def quiet(self, fn, answers=(), other_answers=()):
+        """run fn with stdout/stderr captured and input() scripted by the *text* of the prompt: overwrite questions
+        get `answers`, every other question (evo_res title mismatch, …) gets `other_answers`;
+        returns (number of overwrite questions, exception); self.other_prompts = texts of the other questions"""
         import builtins
         import logging
-        answers = list(answers)
-        state = {"n": 0}
+        answers, other_answers = list(answers), list(other_answers)
+        state = {"n": 0, "o": 0}
+        self.other_prompts = []
 
         def fake_input(*a):
+            msg = str(a[0]) if a else ""
+            if "overwrite" not in msg:
+                self.other_prompts.append(msg.strip()[:60])
+                k = state["o"]
+                state["o"] += 1
+                return other_answers[k] if k < len(other_answers) else (other_answers[-1] if other_answers else "n")
             k = state["n"]
             state["n"] += 1
             return answers[k] if k < len(answers) else (answers[-1] if answers else "n")
@@ -176,13 +188,18 @@ CLI = {
     "res:save_plot_pdf": ("res", ["r1.zip", "r2.zip", "--save_plot", "out.pdf"], "evo/main_res.py", "export", ["out.pdf"]),
     "res:save_plot_png": ("res", ["r1.zip", "r2.zip", "--save_plot", "out.png"], "evo/main_res.py", "export", None),
     "res:serialize_plot": ("res", ["r1.zip", "r2.zip", "--serialize_plot", "out.ser"], "evo/main_res.py", "serialize", ["out.ser"]),
+    # results with different titles: the title question precedes the writes (answered through other_answers)
+    "res2:save_table": ("res", ["r1.zip", "r3.zip", "--save_table", "out.csv"], "evo/main_res.py", "save_df_as_table", ["out.csv"]),
+    "res2:save_plot_pdf": ("res", ["r1.zip", "r3.zip", "--save_plot", "out.pdf"], "evo/main_res.py", "export", ["out.pdf"]),
+    "res2:save_plot_png": ("res", ["r1.zip", "r3.zip", "--save_plot", "out.png"], "evo/main_res.py", "export", None),
+    "res2:serialize_plot": ("res", ["r1.zip", "r3.zip", "--serialize_plot", "out.ser"], "evo/main_res.py", "serialize", ["out.ser"]),
     "config:generate_out": ("config", ["generate", "--align", "--plot_mode", "xz", "--downsample", "500", "-o", "out.json"],
                             "evo/main_config.py", "<generate>", ["out.json"]),
 }
 _FIGS = {}
 
 
-def run_cli(e, cid, no_warnings, answers):
+def run_cli(e, cid, no_warnings, answers, other_answers=("y",)):
     cmd, argv = CLI[cid][0], list(CLI[cid][1])
     if no_warnings and cmd != "config":
         argv.append("--no_warnings")
@@ -208,7 +225,7 @@ def run_cli(e, cid, no_warnings, answers):
 
             def go():
                 mod.run(par.parser().parse_args(argv))
-        prompts, exc = e.quiet(go, answers)
+        prompts, exc = e.quiet(go, answers, other_answers)
     finally:
         plot.PlotCollection.export = real_export
     return prompts, exc, figs
@@ -264,6 +281,11 @@ def gen_cases(ctx):
         chosen = core_cases + fast_rest + r.sample(slow_rest, 12)
     for c in chosen:
         yield c
+    # evo_res asked "mismatching titles … go on anyway?" and answered 'n': exits before any write
+    for cid in [c for c in CLI if c.startswith("res2:")]:
+        for ex in (0, 1):
+            yield {"kind": "cli" if CLI[cid][4] is not None else "cli-multi", "option": cid, "exists": ex, "no_warnings": 0,
+                   "answer": "y", "title_answer": "n", "pattern": "all" if ex else "none", "answers": ["y"]}
     for ex in (0, 1):
         for nw in (0, 1):
             yield {"kind": "cli-bag", "exists": ex, "no_warnings": nw}
@@ -481,7 +503,8 @@ def evaluate(ctx, cases):
                     Path(t).write_bytes(SENTINEL)
             before = e.snapshot()
             answers = [case["answer"]] * len(targets)
-            prompts, exc, _ = run_cli(e, cid, bool(case["no_warnings"]), answers)
+            prompts, exc, _ = run_cli(e, cid, bool(case["no_warnings"]), answers, [case.get("title_answer", "y")])
+            case = dict(case, other_prompts=list(e.other_prompts))
             after = e.snapshot()
             if cmd == "config":
                 lines.append(f"C17 generate {case['exists']} {hexs(case['answer'])}")
@@ -501,7 +524,8 @@ def evaluate(ctx, cases):
                 if ex:
                     Path(f).write_bytes(SENTINEL)
             before = e.snapshot()
-            prompts, exc, _ = run_cli(e, cid, bool(case["no_warnings"]), case["answers"])
+            prompts, exc, _ = run_cli(e, cid, bool(case["no_warnings"]), case["answers"], [case.get("title_answer", "y")])
+            case = dict(case, other_prompts=list(e.other_prompts))
             after = e.snapshot()
             lines.append(f"C17 cliexport {CLI[cid][2]} {case['no_warnings']} {len(files)} {' '.join(map(str, pat))} "
                          f"{len(case['answers'])} " + " ".join(hexs(a) for a in case["answers"]))
@@ -510,6 +534,23 @@ def evaluate(ctx, cases):
             raise core.ToolError(f"unknown case kind {kind}")
     outs = core.run_driver(lines)
     for (case, targets, enabled, answers, prompts, exc, before, after), out in zip(runs, outs):
+        if case["kind"] in ("cli", "cli-multi"):
+            want_other = 1 if (case["option"].startswith("res2:") and not case["no_warnings"]) else 0
+            if len(case.get("other_prompts", [])) != want_other:
+                ctx.mismatch(case, "number of questions other than the overwrite question", case.get("other_prompts"), want_other)
+            if want_other and case.get("title_answer", "y") != "y":
+                # the user declined to go on: nothing may be written, nothing asked about overwriting
+                if after != before:
+                    ctx.fail(case, "declined-writes-nothing-else",
+                             f"evo_res was told not to go on, but files changed: {sorted(k for k in set(after) | set(before) if after.get(k) != before.get(k))}")
+                if prompts:
+                    ctx.mismatch(case, "overwrite question after the run was declined", prompts, 0)
+                ctx.count("branch", "title-question-declined")
+                ctx.record({k: v for k, v in case.items() if k != "other_prompts"}, any(t in before for t in targets))
+                continue
+            if want_other:
+                ctx.count("branch", "title-question-accepted-then-overwrite-question")
+        case = {k: v for k, v in case.items() if k != "other_prompts"}
         if case["kind"] in ("fn", "cli"):
             plot_fn = case["kind"] == "fn" and case["pk"] == "path" and case["writer"] in ("serialize", "export_pdf")
             judge_single(ctx, case, env(), targets, enabled, answers, prompts, exc, before, after, out,
